@@ -57,6 +57,12 @@ CLAIMS["C02"] = dict(
     note="Proved: comma_delimited only. Decided by the CPython oracle, not proved: layout (indentation, pass insertion), literal validity, statement grammar. Known shapes outside the guard are exercised by the correspondence.",
     technique="CPython compile() oracle + Lean 4 proof of the printer's separator mechanism + correspondence",
     design="§5 C02")
+CLAIMS["C16"] = dict(
+    text="Unbounded Lean theorems on the model of the generator's import collector (Imports in state.rs), for every sequence of add_import/add_from_import calls: each plain module, each from-module and each member appears once (imports_inv), and every name ever registered is provided by the final collector (imports_cover). "
+         "The model is tied to the real collector (reached through a guarded re-export) by a correspondence on random call sequences comparing the rendered import statements. That each generator-introduced name is registered where it is emitted, and that imports precede first use, is decided by a free-name/placement oracle (python ast) on emitted modules from templates for every support import in top-level/function/class positions, generated programs and samples, both annotate settings.",
+    note="Proved: the collector. Oracle only: registration at every emission site (imports_cover's premise) and prepending to the module (gen_arguments). The key order of from-imports (BTreeMap order) is checked by the correspondence, not proved.",
+    technique="Lean 4 proof (invariant over call sequences) + correspondence on the real collector + free-name oracle",
+    design="§5 C16")
 NOT_YET = {}
 ALL = ["C%02d" % i for i in range(1, 21)]
 
